@@ -6,7 +6,7 @@
 set -u
 export GOFLAGS=-mod=mod GOPROXY=off GOSUMDB=off GOTOOLCHAIN=local
 seed="$1"; kind="$2"; demo="$3"; extra="${4:-}"
-name=$(echo "$seed" | sed 's|/tmp/seed/||; s|/||g')
+name=$(echo "$seed" | sed 's|/tmp/seed2/||; s|/tmp/seed/||; s|/||g')
 wt=/tmp/wt/confirm-$name
 log=/tmp/confirm/$name.log
 : > $log
